@@ -7,16 +7,6 @@ From PyLib Require Import PyVal PyBuiltins Ideal PyEval.
 From Spec Require Import MoonFinder.
 From Gen Require Import M_base M_Angle M_Epoch M_Moon.
 From Proofs.C15 Require Import C15_angle C15_j2000 C15_nodes C15_illum C15_fdefs.
-From Proofs.C15 Require C15_f_moon_maximum_declination_northern.
-From Proofs.C15 Require C15_f_moon_maximum_declination_southern.
-From Proofs.C15 Require C15_f_moon_passage_nodes_ascending.
-From Proofs.C15 Require C15_f_moon_passage_nodes_descending.
-From Proofs.C15 Require C15_f_moon_perigee_apogee_apogee.
-From Proofs.C15 Require C15_f_moon_perigee_apogee_perigee.
-From Proofs.C15 Require C15_e_moon_perigee_apogee.
-From Proofs.C15 Require C15_e_moon_passage_nodes.
-From Proofs.C15 Require C15_e_moon_maximum_declination.
-From Proofs.C15 Require C15_e_moon_phase.
 Import ListNotations.
 Open Scope R_scope.
 
@@ -79,60 +69,7 @@ Proof.
   - apply (results_increasing B C D r mean c); assumption.
 Qed.
 
-(* ---- lunar event finders: closed form of the regenerated code per finder/target (every coefficient written out in
-   C15_f_*.v), for a query whose calendar date / leap flag / day of year (Epoch.get_date, is_leap, get_doy: not entered)
-   give the fractional year yr: index k = round((yr - y0) * rate, 0) + target offset; result = Epoch(mean(k) + periodic terms)
-   [+ Angle(parallax) / Angle(declination)]; and |result - (J0 + B k)| <= C while -41 <= k/cc <= 21 with 2C < B (interval
-   arithmetic on the proved coefficients).  moon_phase (4 targets) is not covered: one target takes > 40 min / 6 GB. *)
-Theorem C15_moon_maximum_declination_northern : C15_f_moon_maximum_declination_northern.closed_stmt /\ timing C15_f_moon_maximum_declination_northern.J0 C15_f_moon_maximum_declination_northern.B C15_f_moon_maximum_declination_northern.cc C15_f_moon_maximum_declination_northern.C C15_f_moon_maximum_declination_northern.v_jde_3.
-Proof. exact C15_f_moon_maximum_declination_northern.ok. Qed.
-Theorem C15_moon_maximum_declination_southern : C15_f_moon_maximum_declination_southern.closed_stmt /\ timing C15_f_moon_maximum_declination_southern.J0 C15_f_moon_maximum_declination_southern.B C15_f_moon_maximum_declination_southern.cc C15_f_moon_maximum_declination_southern.C C15_f_moon_maximum_declination_southern.v_jde_3.
-Proof. exact C15_f_moon_maximum_declination_southern.ok. Qed.
-Theorem C15_moon_passage_nodes_ascending : C15_f_moon_passage_nodes_ascending.closed_stmt /\ timing C15_f_moon_passage_nodes_ascending.J0 C15_f_moon_passage_nodes_ascending.B C15_f_moon_passage_nodes_ascending.cc C15_f_moon_passage_nodes_ascending.C C15_f_moon_passage_nodes_ascending.v_jde_2.
-Proof. exact C15_f_moon_passage_nodes_ascending.ok. Qed.
-Theorem C15_moon_passage_nodes_descending : C15_f_moon_passage_nodes_descending.closed_stmt /\ timing C15_f_moon_passage_nodes_descending.J0 C15_f_moon_passage_nodes_descending.B C15_f_moon_passage_nodes_descending.cc C15_f_moon_passage_nodes_descending.C C15_f_moon_passage_nodes_descending.v_jde_2.
-Proof. exact C15_f_moon_passage_nodes_descending.ok. Qed.
-Theorem C15_moon_perigee_apogee_apogee : C15_f_moon_perigee_apogee_apogee.closed_stmt /\ timing C15_f_moon_perigee_apogee_apogee.J0 C15_f_moon_perigee_apogee_apogee.B C15_f_moon_perigee_apogee_apogee.cc C15_f_moon_perigee_apogee_apogee.C C15_f_moon_perigee_apogee_apogee.v_jde_2.
-Proof. exact C15_f_moon_perigee_apogee_apogee.ok. Qed.
-Theorem C15_moon_perigee_apogee_perigee : C15_f_moon_perigee_apogee_perigee.closed_stmt /\ timing C15_f_moon_perigee_apogee_perigee.J0 C15_f_moon_perigee_apogee_perigee.B C15_f_moon_perigee_apogee_perigee.cc C15_f_moon_perigee_apogee_perigee.C C15_f_moon_perigee_apogee_perigee.v_jde_2.
-Proof. exact C15_f_moon_perigee_apogee_perigee.ok. Qed.
-(* refusals: TypeError for a non-Epoch (None/bool/int/float/str) first argument or a non-string target, ValueError for a
-   string that is not one of the finder's targets (list bad_strings in C15_e_*.v: empty, wrong case, other finders' targets) *)
-Theorem C15_moon_perigee_apogee_refusals :
-  (forall v s, scalar_arg v -> Moon_moon_perigee_apogee Rops v (VStr s) = VErr TypeError) /\
-  (forall j v, nonstr_arg v -> Moon_moon_perigee_apogee Rops (VObj cEpoch [VFloat j]) v = VErr TypeError) /\
-  (forall j s, In s C15_e_moon_perigee_apogee.bad_strings -> Moon_moon_perigee_apogee Rops (VObj cEpoch [VFloat j]) (VStr s) = VErr ValueError).
-Proof. exact C15_e_moon_perigee_apogee.refusals. Qed.
-Theorem C15_moon_passage_nodes_refusals :
-  (forall v s, scalar_arg v -> Moon_moon_passage_nodes Rops v (VStr s) = VErr TypeError) /\
-  (forall j v, nonstr_arg v -> Moon_moon_passage_nodes Rops (VObj cEpoch [VFloat j]) v = VErr TypeError) /\
-  (forall j s, In s C15_e_moon_passage_nodes.bad_strings -> Moon_moon_passage_nodes Rops (VObj cEpoch [VFloat j]) (VStr s) = VErr ValueError).
-Proof. exact C15_e_moon_passage_nodes.refusals. Qed.
-Theorem C15_moon_maximum_declination_refusals :
-  (forall v s, scalar_arg v -> Moon_moon_maximum_declination Rops v (VStr s) = VErr TypeError) /\
-  (forall j v, nonstr_arg v -> Moon_moon_maximum_declination Rops (VObj cEpoch [VFloat j]) v = VErr TypeError) /\
-  (forall j s, In s C15_e_moon_maximum_declination.bad_strings -> Moon_moon_maximum_declination Rops (VObj cEpoch [VFloat j]) (VStr s) = VErr ValueError).
-Proof. exact C15_e_moon_maximum_declination.refusals. Qed.
-Theorem C15_moon_phase_refusals :
-  (forall v s, scalar_arg v -> Moon_moon_phase Rops v (VStr s) = VErr TypeError) /\
-  (forall j v, nonstr_arg v -> Moon_moon_phase Rops (VObj cEpoch [VFloat j]) v = VErr TypeError) /\
-  (forall j s, In s C15_e_moon_phase.bad_strings -> Moon_moon_phase Rops (VObj cEpoch [VFloat j]) (VStr s) = VErr ValueError).
-Proof. exact C15_e_moon_phase.refusals. Qed.
-(* consequences of `timing` through Spec.MoonFinder (LinearMean): for integer indices n (k = n + off) in the window,
-   consecutive results are strictly ordered and B +- 2C apart; a later index is at least B - 2C later; never backwards *)
-Theorem C15_finder_timing : forall (J0 B cc C off : R) (r : R -> R), timing J0 B cc C r ->
-  let P := fun n : Z => -41 <= (IZR n + off) / cc <= 21 in
-  let rz := fun n : Z => r (IZR n + off) in
-  (forall n, P n -> P (n + 1)%Z -> rz n < rz (n + 1)%Z /\ Rabs (rz (n + 1)%Z - rz n - B) <= 2 * C) /\
-  (forall n1 n2, P n1 -> P n2 -> (n1 < n2)%Z -> rz n1 + (B - 2 * C) <= rz n2) /\
-  (forall n1 n2, P n1 -> P n2 -> (n1 <= n2)%Z -> rz n1 <= rz n2).
-Proof.
-  intros J0 B cc C off r HT P rz. split; [| split].
-  - exact (timing_step J0 B cc C off r HT).
-  - exact (timing_order J0 B cc C off r HT).
-  - exact (timing_monotone J0 B cc C off r HT).
-Qed.
-
+(* the lunar event finder statements are in C15_s1.v / C15_s2.v (quick) and C15_heavy.v (thorough) *)
 Redirect "C15_angle_reduction.assumptions" Print Assumptions C15_angle_reduction.
 Redirect "C15_jde2000.assumptions" Print Assumptions C15_jde2000.
 Redirect "C15_mean_node.assumptions" Print Assumptions C15_mean_node.
@@ -142,14 +79,3 @@ Redirect "C15_perigee_rate.assumptions" Print Assumptions C15_perigee_rate.
 Redirect "C15_illuminated_fraction.assumptions" Print Assumptions C15_illuminated_fraction.
 Redirect "C15_finder_index.assumptions" Print Assumptions C15_finder_index.
 Redirect "C15_finder_spacing.assumptions" Print Assumptions C15_finder_spacing.
-Redirect "C15_moon_maximum_declination_northern.assumptions" Print Assumptions C15_moon_maximum_declination_northern.
-Redirect "C15_moon_maximum_declination_southern.assumptions" Print Assumptions C15_moon_maximum_declination_southern.
-Redirect "C15_moon_passage_nodes_ascending.assumptions" Print Assumptions C15_moon_passage_nodes_ascending.
-Redirect "C15_moon_passage_nodes_descending.assumptions" Print Assumptions C15_moon_passage_nodes_descending.
-Redirect "C15_moon_perigee_apogee_apogee.assumptions" Print Assumptions C15_moon_perigee_apogee_apogee.
-Redirect "C15_moon_perigee_apogee_perigee.assumptions" Print Assumptions C15_moon_perigee_apogee_perigee.
-Redirect "C15_moon_perigee_apogee_refusals.assumptions" Print Assumptions C15_moon_perigee_apogee_refusals.
-Redirect "C15_moon_passage_nodes_refusals.assumptions" Print Assumptions C15_moon_passage_nodes_refusals.
-Redirect "C15_moon_maximum_declination_refusals.assumptions" Print Assumptions C15_moon_maximum_declination_refusals.
-Redirect "C15_moon_phase_refusals.assumptions" Print Assumptions C15_moon_phase_refusals.
-Redirect "C15_finder_timing.assumptions" Print Assumptions C15_finder_timing.
